@@ -3,13 +3,20 @@ package main
 // vh c07 — runs operation histories on REAL obiseq.BioSequence objects (property C07) and reports,
 // after every operation, the value of every live object (String, qualities, pairing_mismatches),
 // which object (if any existing one) the operation returned, and whether the operation failed.
+// Round 2: features and mate of every live object are observed too; when VERIF_POOL_TRACE names the trace
+// file of the pool hook (pkg/obiseq/pool_verif.go) every step also reports the Get / Recycle events the
+// operation caused and the identities of the three backing arrays of every register (kept alive for the case).
 // A case {"kind":"tables"} dumps the complement tables of the current build.
 
 import (
 	"bufio"
+	"bytes"
 	"fmt"
+	"io"
+	"os"
 	"runtime"
 	"sort"
+	"strconv"
 	"unsafe"
 
 	"git.metabarcoding.org/obitools/obitools4/obitools4/pkg/obiapat"
@@ -33,6 +40,9 @@ type c07op struct {
 	B       int            `json:"b"`
 	Key     string         `json:"key"`
 	N       int            `json:"n"`
+	Via     string         `json:"via"`     // constructor of "new": "" (NewBioSequence) | write | writestring | writebyte | setseq
+	Feat    string         `json:"feat"`    // features given to "new" / "setfeat"
+	HasFeat bool           `json:"hasfeat"` // "new": call SetFeatures
 }
 
 type c07case struct {
@@ -47,6 +57,8 @@ type c07val struct {
 	HasQ bool     `json:"hasq"`
 	Qual []int    `json:"qual"`
 	Mm   [][2]any `json:"mm"` // sorted (key, position); nil when the attribute is absent
+	Feat string   `json:"feat"`
+	Mate int      `json:"mate"` // PairedWith(): -1 none, else the lowest register naming that object, -2 when no register names it (recycled mate)
 }
 
 type c07step struct {
@@ -55,7 +67,9 @@ type c07step struct {
 	Res    int      `json:"res"`  // register that received the result (-1: none)
 	Same   int      `json:"same"` // lowest live register < res holding the very same object (-1: a new object)
 	Snap   []c07val `json:"snap,omitempty"`
-	Bufs   [][2]int `json:"bufs,omitempty"`   // per register: identity (small integer, per case) of the sequence / quality backing arrays, -1: none
+	Bufs   [][3]int `json:"bufs,omitempty"`   // per register: identity (small integer, per case) of the sequence / quality / feature backing arrays as stored, -1: none (nil or capacity 0)
+	Pool   [][3]int `json:"pool,omitempty"`   // byte-pool events of this step, in order: [0 = Get | 1 = Recycle, buffer identity (-1: nil header), capacity]
+	APool  int      `json:"apool,omitempty"`  // number of annotation-pool events of this step
 	Shared [][2]int `json:"shared,omitempty"` // pairs of registers naming DIFFERENT live objects whose byte buffers overlap
 }
 
@@ -80,16 +94,25 @@ func c07qual(q []int) []byte {
 	return b
 }
 
-func c07snapOne(s *obiseq.BioSequence) c07val {
+func c07snapOne(s *obiseq.BioSequence, regs []*obiseq.BioSequence) c07val {
 	if s == nil {
-		return c07val{}
+		return c07val{Mate: -1}
 	}
-	v := c07val{Live: true, Seq: s.String(), HasQ: s.HasQualities()}
+	v := c07val{Live: true, Seq: s.String(), HasQ: s.HasQualities(), Feat: s.Features(), Mate: -1}
 	if v.HasQ {
 		q := s.Qualities()
 		v.Qual = make([]int, len(q))
 		for i, x := range q {
 			v.Qual[i] = int(x)
+		}
+	}
+	if m := s.PairedWith(); m != nil {
+		v.Mate = -2
+		for i, x := range regs {
+			if x == m {
+				v.Mate = i
+				break
+			}
 		}
 	}
 	if s.HasAnnotation() {
@@ -113,8 +136,8 @@ func c07snapOne(s *obiseq.BioSequence) c07val {
 	return v
 }
 
-// c07shared lists the pairs of registers that name different live objects whose sequence / quality
-// backing arrays overlap (the ownership invariant of the model says: none).
+// c07shared lists the pairs of registers that name different live objects whose sequence / quality /
+// feature backing arrays (as stored, whole capacity) overlap (the ownership invariant of the model says: none).
 func c07shared(regs []*obiseq.BioSequence) [][2]int {
 	type span struct {
 		reg    int
@@ -133,10 +156,10 @@ func c07shared(regs []*obiseq.BioSequence) [][2]int {
 			continue
 		}
 		seen[s] = true
-		add(i, s.Sequence())
-		if s.HasQualities() {
-			add(i, s.Qualities())
-		}
+		sq, q, f := s.VerifRawBuffers()
+		add(i, sq)
+		add(i, q)
+		add(i, f)
 	}
 	res := [][2]int{}
 	for a := 0; a < len(spans); a++ {
@@ -152,7 +175,7 @@ func c07shared(regs []*obiseq.BioSequence) [][2]int {
 func c07snap(regs []*obiseq.BioSequence) []c07val {
 	r := make([]c07val, len(regs))
 	for i, s := range regs {
-		r[i] = c07snapOne(s)
+		r[i] = c07snapOne(s, regs)
 	}
 	return r
 }
@@ -174,35 +197,133 @@ func c07churn(n, capacity int) {
 	}
 }
 
-// c07bufs names the backing arrays of every live register by small integers (first appearance in the case).
-func c07bufs(regs []*obiseq.BioSequence, ids map[uintptr]int) [][2]int {
-	name := func(b []byte) int {
-		if cap(b) == 0 {
-			return -1
-		}
-		p := uintptr(unsafe.Pointer(unsafe.SliceData(b[:cap(b)])))
-		if _, ok := ids[p]; !ok {
-			ids[p] = len(ids)
-		}
-		return ids[p]
+// identities of backing arrays within one case: small integers by first appearance of the start address
+// of the array; every named array is kept alive until the end of the case so that an address names one array
+type c07ids struct {
+	ids  map[uintptr]int
+	keep [][]byte
+}
+
+func (t *c07ids) addr(p uintptr) int {
+	if p == 0 {
+		return -1
 	}
-	res := make([][2]int, len(regs))
+	if _, ok := t.ids[p]; !ok {
+		t.ids[p] = len(t.ids)
+	}
+	return t.ids[p]
+}
+
+func (t *c07ids) name(b []byte) int {
+	if cap(b) == 0 {
+		return -1
+	}
+	p := uintptr(unsafe.Pointer(unsafe.SliceData(b[:cap(b)])))
+	if _, ok := t.ids[p]; !ok {
+		t.keep = append(t.keep, b)
+	}
+	return t.addr(p)
+}
+
+// c07bufs names the backing arrays of every live register.
+func c07bufs(regs []*obiseq.BioSequence, ids *c07ids) [][3]int {
+	res := make([][3]int, len(regs))
 	for i, s := range regs {
-		res[i] = [2]int{-1, -1}
+		res[i] = [3]int{-1, -1, -1}
 		if s != nil {
-			res[i][0] = name(s.Sequence())
-			if s.HasQualities() {
-				res[i][1] = name(s.Qualities())
-			}
+			sq, q, f := s.VerifRawBuffers()
+			res[i] = [3]int{ids.name(sq), ids.name(q), ids.name(f)}
 		}
 	}
 	return res
 }
 
+// the pool trace written by the verif hook of pkg/obiseq (file named by VERIF_POOL_TRACE, one write per
+// event): the harness reads what was appended during each operation
+var c07trace *os.File
+
+func c07traceOpen() {
+	if name := os.Getenv("VERIF_POOL_TRACE"); name != "" && c07trace == nil {
+		if f, err := os.OpenFile(name, os.O_RDONLY|os.O_CREATE, 0o644); err == nil {
+			c07trace = f
+			f.Seek(0, io.SeekEnd)
+		}
+	}
+}
+
+func c07traceRead(ids *c07ids) (ev [][3]int, annot int) {
+	if c07trace == nil {
+		return nil, 0
+	}
+	data, _ := io.ReadAll(c07trace)
+	for _, line := range bytes.Split(data, []byte("\n")) {
+		f := bytes.Fields(line)
+		if len(f) != 4 {
+			continue
+		}
+		kind := string(f[0])
+		if kind == "GA" || kind == "RA" {
+			annot++
+			continue
+		}
+		d, _ := strconv.ParseUint(string(f[2]), 10, 64)
+		c, _ := strconv.Atoi(string(f[3]))
+		k := 0
+		if kind == "R" {
+			k = 1
+		}
+		ev = append(ev, [3]int{k, ids.addr(uintptr(d)), c})
+	}
+	return ev, annot
+}
+
+func c07new(op c07op) *obiseq.BioSequence {
+	var res *obiseq.BioSequence
+	switch op.Via {
+	case "write":
+		res = obiseq.NewEmptyBioSequence(op.N)
+		res.SetId("s")
+		res.Write([]byte(op.Seq))
+	case "writestring":
+		res = obiseq.NewEmptyBioSequence(op.N)
+		res.SetId("s")
+		res.WriteString(op.Seq)
+	case "writebyte":
+		res = obiseq.NewEmptyBioSequence(op.N)
+		res.SetId("s")
+		for _, b := range []byte(op.Seq) {
+			res.WriteByte(b)
+		}
+	case "setseq":
+		res = obiseq.NewEmptyBioSequence(op.N)
+		res.SetId("s")
+		res.SetSequence([]byte(op.Seq))
+	default:
+		res = obiseq.NewBioSequence("s", []byte(op.Seq), "")
+	}
+	if op.Qual != nil {
+		res.SetQualities(c07qual(op.Qual))
+	}
+	if op.HasFeat {
+		res.SetFeatures([]byte(op.Feat))
+	}
+	if op.HasMm {
+		m := make(map[string]int, len(op.Mm))
+		for k, v := range op.Mm {
+			m[k] = v
+		}
+		res.SetAttribute("pairing_mismatches", m)
+	}
+	return res
+}
+
 func c07hist(c c07case) c07obs {
-	ids := map[uintptr]int{}
+	ids := &c07ids{ids: map[uintptr]int{}}
 	regs := []*obiseq.BioSequence{}
 	o := c07obs{Kind: "hist"}
+	c07traceOpen()
+	c07traceRead(ids) // events of the previous case's snapshots, if any
+	ids = &c07ids{ids: map[uintptr]int{}}
 	get := func(i int) *obiseq.BioSequence {
 		if i < 0 || i >= len(regs) {
 			return nil
@@ -228,17 +349,7 @@ func c07hist(c c07case) c07obs {
 			}
 			switch op.Op {
 			case "new":
-				res = obiseq.NewBioSequence("s", []byte(op.Seq), "")
-				if op.Qual != nil {
-					res.SetQualities(c07qual(op.Qual))
-				}
-				if op.HasMm {
-					m := make(map[string]int, len(op.Mm))
-					for k, v := range op.Mm {
-						m[k] = v
-					}
-					res.SetAttribute("pairing_mismatches", m)
-				}
+				res = c07new(op)
 				produced = true
 			case "copy":
 				res = s.Copy()
@@ -266,8 +377,23 @@ func c07hist(c c07case) c07obs {
 				produced = true
 			case "setseq":
 				s.SetSequence([]byte(op.Seq))
+			case "write": // append raw bytes (not lower-cased by the code)
+				switch op.Via {
+				case "writestring":
+					s.WriteString(op.Seq)
+				case "writebyte":
+					for _, b := range []byte(op.Seq) {
+						s.WriteByte(b)
+					}
+				default:
+					s.Write([]byte(op.Seq))
+				}
 			case "setqual":
 				s.SetQualities(c07qual(op.Qual))
+			case "setfeat": // the object adopts the slice it is given; N = spare capacity of that slice
+				f := make([]byte, len(op.Feat), len(op.Feat)+op.N)
+				copy(f, op.Feat)
+				s.SetFeatures(f)
 			case "poke": // write one byte straight into the sequence buffer
 				b := s.Sequence()
 				if op.I >= 0 && op.I < len(b) {
@@ -279,6 +405,11 @@ func c07hist(c c07case) c07obs {
 					if op.I >= 0 && op.I < len(q) {
 						q[op.I] = byte(op.B)
 					}
+				}
+			case "pokef":
+				_, _, f := s.VerifRawBuffers()
+				if op.I >= 0 && op.I < len(f) {
+					f[op.I] = byte(op.B)
 				}
 			case "setmm":
 				m := make(map[string]int, len(op.Mm))
@@ -292,6 +423,16 @@ func c07hist(c c07case) c07obs {
 						m[op.Key] = op.B
 					}
 				}
+			case "pair":
+				s2 := get(op.R2)
+				if s2 == nil {
+					st.Status = "err"
+					st.Msg = "dead register"
+					return
+				}
+				s.PairTo(s2)
+			case "unpair":
+				s.UnPair()
 			case "recycle":
 				s.Recycle()
 				for i := range regs { // every register naming this object dies
@@ -318,10 +459,12 @@ func c07hist(c c07case) c07obs {
 				regs = append(regs, res)
 			}
 		}()
+		st.Pool, st.APool = c07traceRead(ids) // before the snapshot: reading an object may itself use the pools
 		if c.Each {
-			st.Snap = c07snap(regs)
-			st.Shared = c07shared(regs)
 			st.Bufs = c07bufs(regs, ids)
+			st.Shared = c07shared(regs)
+			st.Snap = c07snap(regs)
+			c07traceRead(ids)
 		}
 		o.Steps = append(o.Steps, st)
 	}
